@@ -53,15 +53,14 @@ Proof. exact scan_pages_roundtrip. Qed.
 Print Assumptions C03_spec_chunk_roundtrip.
 
 (* what the generated files encode: the specification decoder reads every well-formed laid-out file back
-   to its denotation (file level; `_partial` only because footer_ok - representability and IDL conformance
-   of the encoder's own footer - is a decidable hypothesis, see props/C02.v) *)
-Theorem C03_spec_roundtrip_dec_partial :
+   to its denotation (file level; the hypotheses are discussed in props/C02.v) *)
+Theorem C03_spec_roundtrip_dec :
   forall (compress : Z -> bytes -> bytes) (decompress : Z -> N -> bytes -> option bytes),
   (forall codec b, decompress codec (lenN b) (compress codec b) = Some b) ->
   forall strict f t, lfile_wf compress f -> table_of f = Some t ->
   dec_file decompress strict (enc_file compress f) = ROk t.
 Proof. exact spec_roundtrip_dec. Qed.
-Print Assumptions C03_spec_roundtrip_dec_partial.
+Print Assumptions C03_spec_roundtrip_dec.
 
 (* impl model of fastparquet's v1 page reader (foreign files: selfmade = false) on the raw bytes of
    any v1 data page the specification encoder can write - optional or required, PLAIN for every
